@@ -506,7 +506,9 @@ fn judge_step(w: &mut World, id: &str, k: usize, parts: &[V], reply: &V) -> (Vec
                     } else if i > 2 {
                         // refused: nothing may have been added; whether the first pairs were applied shows later
                         for (m, s) in pairs.iter().take((i - 2) / 2) { zput(&mut z2, m, *s); }
-                        if z2 != z { let mut alt = w.clone(); alt.db.insert(key, RefVal::Z(z2)); if alt.partial_at.is_none() { alt.partial_at = Some(k); } fork = Some(alt); }
+                        // compared by bit pattern: re-scoring +0 to -0 is a change too
+                        let changed = z2.len() != z.len() || z2.iter().zip(z.iter()).any(|(a, b)| a.0 != b.0 || a.1.to_bits() != b.1.to_bits());
+                        if changed { let mut alt = w.clone(); alt.db.insert(key, RefVal::Z(z2)); if alt.partial_at.is_none() { alt.partial_at = Some(k); } fork = Some(alt); }
                     }
                 }
             }
